@@ -145,6 +145,9 @@ class MathParser:
                 out = (utils.latex_error('missing end of maths', start,
                                 self.parser.latex, self.parser.parms) + out)
                 break
+            elif type(tok) is defs.VerbatimToken:
+                # \verb text is data: do not compare it with stop tokens etc.
+                out.append(defs.MathElemToken(tok.pos, tok.txt))
             elif tok.txt in toks_stop:
                 buf.next()
                 break
